@@ -66,7 +66,6 @@ class ShapelyPolygon(Domain):
     ):
         n = self._compute_number_of_points(n, d, params)
         points = torch.empty((0, self.dim), device=device)
-        big_t, biggest_area = None, 0
         # instead of using a bounding box it is more efficient to triangulate
         # the polygon and sample in each triangle.
         for t in s_ops.triangulate(self.polygon):
@@ -74,25 +73,12 @@ class ShapelyPolygon(Domain):
             new_points = self._sample_in_triangulation(t, scaled_n, device)
             if new_points is not None:
                 points = torch.cat((points, new_points), dim=0)
-                # remember the biggest triangle that was inside, if later
-                # some additional points need to be added
-                if t.within(self.polygon) and t.area > biggest_area:
-                    big_t = [t][0]
-                    biggest_area = t.area
-            if len(points) == n:
+            if len(points) >= n:
                 break
-        if big_t is None and len(points) < n:
-            # for small n no triangle got a point: fill up in the biggest triangle inside the
-            # polygon (or, if there is none, in the triangle with the biggest part inside,
-            # whose points are filtered)
-            triangles = s_ops.triangulate(self.polygon)
-            inside = [t for t in triangles if t.within(self.polygon)]
-            if inside:
-                big_t = max(inside, key=lambda t: t.area)
-            else:
-                big_t = max(triangles, key=lambda t: t.intersection(self.polygon).area)
-        points = self._check_enough_points_sampled(n, points, big_t, device)
-        return Points(points, self.space)
+        points = self._check_enough_points_sampled(n, points, None, device)
+        # the triangulation covers the convex hull, so the rounded shares can add up
+        # to some points more than asked for
+        return Points(points[:n], self.space)
 
     def _sample_in_triangulation(self, t, n, device):
         (x0, y0), (x1, y1), (x2, y2), _ = t.exterior.coords
@@ -121,10 +107,18 @@ class ShapelyPolygon(Domain):
         return torch.add(torch.add(corners[0], axis_1), axis_2)
 
     def _check_enough_points_sampled(self, n, points, big_t, device):
-        # if not enough points are sampled, create some new points in the biggest
-        # triangle
+        # if not enough points are sampled (rounding, rejected points), create the
+        # missing ones in randomly chosen triangles (probability ~ area inside the
+        # polygon), so that also a small number of points can reach every part of
+        # the polygon. (big_t, formerly the only triangle used here, is ignored.)
+        if len(points) < n:
+            triangles = s_ops.triangulate(self.polygon)
+            weights = torch.tensor(
+                [t.intersection(self.polygon).area for t in triangles]
+            )
         while len(points) < n:
-            new_points = self._sample_in_triangulation(big_t, n - len(points), device)
+            t = triangles[int(torch.multinomial(weights, 1))]
+            new_points = self._sample_in_triangulation(t, n - len(points), device)
             points = torch.cat((points, new_points), dim=0)
         return points
 
